@@ -40,6 +40,11 @@ func replay(c *vlib.Check, path string, b []byte, err error) {
 		if json.Unmarshal(f.Witness.Scenario, &s) == nil {
 			runDrvScenario(c, s)
 		}
+	case "cp":
+		var s cplScenario
+		if json.Unmarshal(f.Witness.Scenario, &s) == nil {
+			runCPLScenario(c, s)
+		}
 	case "handshake-rdma":
 		var s hsScenario
 		if json.Unmarshal(f.Witness.Scenario, &s) == nil {
@@ -78,6 +83,7 @@ func main() {
 	nD := c.N(1500, 12000)
 	nM := c.N(600, 8000)
 	nH := c.N(400, 4000)
+	nC := c.N(150, 2000)
 
 	// the canonical battery runs first and sequentially, so that the witness
 	// kept for a key is the canonical reproducer whenever it reproduces
@@ -92,6 +98,9 @@ func main() {
 	}
 	for _, s := range canonicalHS() {
 		runHSScenario(c, s)
+	}
+	for _, s := range canonicalCPL() {
+		runCPLScenario(c, s)
 	}
 	// development aid: C19_ONLY_HS=canon|all runs the handshake-with-RDMA part alone; never "held"
 	if v := os.Getenv("C19_ONLY_HS"); v != "" {
@@ -130,6 +139,8 @@ func main() {
 	for i := 0; i < nH; i++ {
 		hs = append(hs, genHSScenario(hbase.ForkN("s", i), i))
 	}
+	cbase := c.Rand("cp")
+	vlib.Parallel(nC, 0, func(i int) { runCPLScenario(c, genCPLScenario(cbase.ForkN("s", i), i)) })
 	vlib.Parallel(len(pm)+len(dr)+len(dm)+len(hs), 0, func(i int) {
 		switch {
 		case i < len(pm):
@@ -155,6 +166,8 @@ func main() {
 			"handshake-with-RDMA scenario = (2-3 GPUs, each a real rdma.Comp + real PageMigrationController on one ideal or hostile memory, one inter-GPU fabric with latency 2-3000 cycles, " +
 			"jitter and bounded occupancy, fake L1s issuing remote loads / stores with unique non-overlapping payloads to the page that migrates, timed around the start of the sequence, " +
 			"1-3 rounds of drain all -> copy -> restart all, chains A->B->C, accesses to the new frame after the round); " +
+			"command-processor scenario = (3-4 GPUs, each a real cp.CommandProcessor (migration path) + real PageMigrationController + memory, a driver stub sending 4-12 PageMigrationReqToCP one at a time, " +
+			"destinations receiving pages from different owners, interleaved destinations, repeated owners, 64 B - 8 KiB; non-trivial = a checked migration into a GPU whose first migration came from another owner); " +
 			"non-trivial = PMC scenario with >= 2 checked migrations of which one arrived while the controller was migrating, " +
 			"or one driver handshake whose five stages and page-table post-condition were all checked, " +
 			"or one handshake-with-RDMA round that started with a remote store to the page in flight and whose contents and ordering rules were checked, " +
@@ -197,6 +210,8 @@ func main() {
 			"drv_handshakes_checked":                                    200,
 			"drv_pages_checked":                                         200,
 			"drv_requests_queued_during_migration":                      20,
+			"cp_migrations_checked":                                     500,
+			"cp_migrations_into_a_gpu_from_a_second_owner":              150,
 			"hs_rounds_checked":                                         300,
 			"hs_drains_with_remote_write_to_page_in_flight":             150,
 			"hs_drains_with_remote_read_to_page_in_flight":              100,
